@@ -403,6 +403,18 @@ func (e *Env) eval(x Expr) Val {
 			r := Val{T: xv.T, K: KSlice}
 			r.Sl = [4]Term{xv.Sl[0], app("+", xv.Sl[1], lo), app("-", hi, lo), app("-", xv.Sl[3], lo)}
 			return r
+		case KArray:
+			// an array that lives in the heap (array-typed field or *[N]T): the slice aliases its storage
+			if at, ok := xv.T.Underlying().(*types.Array); ok && xv.Sl[0] != "" {
+				n64 := num(at.Len())
+				hi := Term(n64)
+				if n.Hi != nil {
+					hi = e.eval(n.Hi).S
+				}
+				r := Val{T: types.NewSlice(at.Elem()), K: KSlice}
+				r.Sl = [4]Term{xv.Sl[0], lo, app("-", hi, lo), app("-", n64, lo)}
+				return r
+			}
 		}
 		sfail("slice expression on unsupported kind")
 	case *EUn:
